@@ -458,3 +458,47 @@ func isParamValue(v ssa.Value, p *ssa.Parameter) bool {
 	}
 	return n == 1 && okStore
 }
+
+// callInstrsDeep: the call instructions of fn and of the unexported functions of its package that it calls (to the
+// given depth): where a block was moved into a helper, its calls are still found.
+func callInstrsDeep(fn *ssa.Function, depth int) []ssa.CallInstruction {
+	seen := map[*ssa.Function]bool{}
+	var out []ssa.CallInstruction
+	var visit func(f *ssa.Function, d int)
+	visit = func(f *ssa.Function, d int) {
+		if f == nil || seen[f] || len(f.Blocks) == 0 {
+			return
+		}
+		seen[f] = true
+		for _, ci := range callInstrs(f) {
+			out = append(out, ci)
+			if d <= 0 {
+				continue
+			}
+			h := ci.Common().StaticCallee()
+			if h != nil && h.Pkg == fn.Pkg && h.Object() != nil && !h.Object().Exported() {
+				visit(h, d-1)
+			}
+		}
+	}
+	visit(fn, depth)
+	return out
+}
+
+// anonFuncsWithHelpers: the closures of fn and those of the unexported functions of its package that fn calls
+// (one level): an option closure built in place or returned by a small constructor helper.
+func anonFuncsWithHelpers(fn *ssa.Function) []*ssa.Function {
+	out := AnonFuncsDeep(fn)
+	seen := map[*ssa.Function]bool{fn: true}
+	for _, f := range append([]*ssa.Function{fn}, out...) {
+		for _, ci := range callInstrs(f) {
+			h := ci.Common().StaticCallee()
+			if h == nil || seen[h] || h.Pkg != fn.Pkg || h.Object() == nil || h.Object().Exported() || len(h.Blocks) == 0 {
+				continue
+			}
+			seen[h] = true
+			out = append(out, AnonFuncsDeep(h)...)
+		}
+	}
+	return out
+}
